@@ -191,6 +191,10 @@ def run_isolated(mod, tier, seed, what="run", args=None):
             wr.send_bytes(pickle.dumps(("ok", out)))
         except common.Infra as e:
             wr.send_bytes(pickle.dumps(("infra", str(e))))
+        except MemoryError:
+            # the address-space limit was hit outside a guarded library call (e.g. a size, shape or offset read back from the
+            # buffer is garbage and the harness iterates over it): same meaning as a killed child
+            os._exit(99)
         except BaseException:
             wr.send_bytes(pickle.dumps(("exc", traceback.format_exc())))
         finally:
